@@ -1,6 +1,6 @@
 use std::io::Read;
 
-mod fixed_size;
+pub(crate) mod fixed_size;
 pub mod rabin;
 
 use fixed_size::ChunkIter as FixedSizeChunkIter;
